@@ -68,6 +68,7 @@ type c11shape struct {
 const c11T0 = uint64(1600000000)
 
 func c11(r *engine.Run) {
+	r.RaceWorkload = "transactions" // supplement: free-running race-detector pass over the same API (can only add findings)
 	if pf := os.Getenv("VERIF_PROFILE"); pf != "" {
 		f, _ := os.Create(pf)
 		pprof.StartCPUProfile(f)
